@@ -3,7 +3,10 @@
    (get_param, get_param_as_int/float/bool/uuid/datetime/date/json/list) and has_param.
 
    A parameter is absent, or present with a non-empty sequence of values (in order of
-   occurrence).  The reference conversion of a value for a getter kind is an input of the
+   occurrence), or PRESENT WITH ZERO VALUES (`zero`: its comma-separated value had blank elements only
+   and all were dropped, see QueryStringOps).  For the last status the scalar getters must follow the
+   absent protocol (there is no value to convert); get_param_as_list may return the empty list or follow
+   the absent protocol; has_param may say either.  The reference conversion of a value for a getter kind is an input of the
    model: conv = [ok |-> BOOLEAN, v |-> Int]; v is the converted number for the numeric kinds
    (floats in thousandths) and an opaque token identifying the converted object otherwise;
    for "bool" v is 0 (false), 1 (true) or 2 (blank: the value of blank_as_true applies).
@@ -39,4 +42,12 @@ Outcome(present, convs, c) ==
              ELSE IF c.kind \in BoundedKinds /\ c.hasmin /\ v < c.min THEN Out("invalid", "min", 0, <<>>, FALSE)
              ELSE IF c.kind \in BoundedKinds /\ c.hasmax /\ v > c.max THEN Out("invalid", "max", 0, <<>>, FALSE)
              ELSE Out("value", "", v, <<>>, c.store)
+
+(* all acceptable outcomes; the first alternative of the zero-values case is Absent(c) *)
+Absent(c) == Outcome(FALSE, <<>>, c)
+Outcomes(present, zero, convs, c) ==
+    IF ~zero THEN {Outcome(present, convs, c)}
+    ELSE IF c.kind = "has" THEN {Out("value", "", 0, <<>>, FALSE), Out("value", "", 1, <<>>, FALSE)}
+    ELSE IF c.kind \in ListKinds THEN {Absent(c), Out("value", "", 0, <<>>, c.store)}
+    ELSE {Absent(c)}
 =============================================================================
